@@ -40,7 +40,7 @@ def gen_case(rng, tier):
     else:
         gene = {"kind": "shipped", "name": rng.choice(cfg["shipped"]), "genome": rng.choice(["hg19", "hg38"])}
     return {"gene": gene, "seed": rng.randint(0, 10**9), "gap": rng.choice([0, 0, 0.1, 0.5]),
-            "mode": rng.choice(["planted", "planted", "noisy", "noisy", "wild", "excess"]),
+            "mode": rng.choice(["planted", "planted", "noisy", "noisy", "wild", "excess", "crowded"]),
             "depth": rng.choice([10, 20, 30]), "max_copies": rng.choice([2, 3, 3, 4])}
 
 
@@ -295,6 +295,21 @@ def run_case(case, seg, viol, unsound, stats, sample):
             if carriers and all(any(w not in seen and w != y for w in a.func_muts) for a in carriers):
                 table[y.pos] = {y.op: D, "_": D * (ncopy - 1)}
                 break
+    elif mode == "crowded":
+        # every catalogued alternative allele of a multi-allelic site is observed, more of them than the
+        # structure has copies: all but `copies` of them would have to be novel at ONE site
+        table = SL.planted_table(gene, [(ma, None) for ma, mi in planted], case["depth"])
+        by_pos = {}
+        for (pos, op) in gene.mutations:
+            if gene.is_functional((pos, op)) and ">" in op and len(op) == 3:
+                by_pos.setdefault(pos, []).append(op)
+        multi = [p for p, ops in by_pos.items() if len(ops) >= 2]
+        if multi:
+            p0 = rng.choice(sorted(multi))
+            D = case["depth"]
+            table[p0] = {"_": 0}
+            for op in by_pos[p0]:
+                table[p0][op] = D
     else:
         table = SL.planted_table(gene, planted, case["depth"], rng, noise=0.5, extra_noise=rng.randint(2, 6))
     profile = Profile("test", gap=case["gap"])
